@@ -247,8 +247,12 @@ Proof.
   destruct (add_missing g hm_) as [g1|] eqn:E1; cbn [bind] in H; [|discriminate].
   unfold add_missing in E1. destruct (is_ordering_of _ _); [|discriminate].
   destruct (add_connections_invS _ _ _ I Ok_ E1) as [I1 F1].
-  destruct (delete_connections g1 (extra_keys g1)) as [g2|] eqn:E2; cbn [bind] in H; [|discriminate].
-  destruct (delete_connections_invS _ _ _ I1 E2) as [I2 F2].
+  cbv zeta in H.
+  destruct (delete_connections g1 (extra_keys g1)) as [g2a|] eqn:E2; cbn [bind] in H; [|discriminate].
+  destruct (delete_connections_invS _ _ _ I1 E2) as [I2a F2].
+  match type of H with (do g2 <- ?X; _) = _ => destruct X as [g2|] eqn:E2b end; cbn [bind] in H; [|discriminate].
+  assert (I2 : InvS g2).
+  { destruct (_ && _) in E2b; [eapply setup_block_connection_name_index_invS; eauto|inversion E2b; subst; exact I2a]. }
   destruct (delete_orphans g2) as [g3|] eqn:E3; cbn [bind] in H; [|discriminate].
   pose proof (delete_orphans_invS g2 g3 I2 E3) as I3.
   destruct (fix_centres g3 hbad) as [g4|] eqn:E4; cbn [bind] in H; [|discriminate].
@@ -341,7 +345,7 @@ Proof.
   destruct (delete_columns_core _ _ _ IS D1 D2 E1) as [I1 [D1' D2']].
   destruct (check_fix g1 [] hbad) as [g2|] eqn:E2; cbn [bind] in H; [|discriminate].
   unfold check_fix, add_missing in E2. destruct (is_ordering_of [] (missing_pairs g1)); [|discriminate].
-  cbn [add_connections bind] in E2. rewrite Ex in E2. cbn [delete_connections bind] in E2.
+  cbn [add_connections bind] in E2. cbv zeta in E2. rewrite Ex in E2. cbn [delete_connections bind negb andb] in E2. rewrite andb_false_r in E2. cbn [bind] in E2.
   destruct (delete_orphans g1) as [g3|] eqn:E3; cbn [bind] in E2; [|discriminate].
   pose proof (delete_orphans_invS g1 g3 I1 E3) as I3.
   assert (D3' : S3b g3 /\ S5n g3).
